@@ -20,13 +20,16 @@ if [ -z "$pkgdir" ] && [ -n "$demo" ]; then
 fi
 flags=${DEMO_FLAGS:-}
 rundemo() { ( cd $WT/pkg/go && cp $demo $pkgdir/zz_seed_demo_test.go && go test -vet=off -count=1 $flags -run "${DEMO_RUN:-.}" ./$pkgdir/ >$OUT/demo.log 2>&1; rc=$?; rm -f $pkgdir/zz_seed_demo_test.go; exit $rc ); }
-if [ -n "$demo" ]; then
+# SKIP_CONFIRM=1: the demonstration and the suite were confirmed by an earlier
+# run (meta.json says so); only re-apply, compile and run the checks
+if [ -n "$demo" ] && [ -z "$SKIP_CONFIRM" ]; then
   if rundemo; then echo "demo without patch: PASS (ok)"; else echo "demo without patch: FAIL (unexpected)"; tail -15 $OUT/demo.log; fi
 fi
 git -C $WT apply $D/patch.diff || { echo "patch does not apply"; exit 2; }
 ( cd $WT/pkg/go && go build ./... ) || { echo "does not compile"; exit 2; }
-if ( cd $WT/pkg/go && go test -vet=off -count=1 ./... >$OUT/suite.log 2>&1 ); then echo "suite with patch: PASSES"; else echo "suite with patch: FAILS"; grep -m5 "FAIL\|---" $OUT/suite.log; fi
-if [ -n "$demo" ]; then
+if [ -n "$SKIP_CONFIRM" ]; then echo "confirmation skipped (confirmed earlier)";
+elif ( cd $WT/pkg/go && go test -vet=off -count=1 ./... >$OUT/suite.log 2>&1 ); then echo "suite with patch: PASSES"; else echo "suite with patch: FAILS"; grep -m5 "FAIL\|---" $OUT/suite.log; fi
+if [ -n "$demo" ] && [ -z "$SKIP_CONFIRM" ]; then
   if rundemo; then echo "demo with patch: PASS (unexpected)"; else echo "demo with patch: FAIL (ok)"; grep -m3 -- "--- FAIL\|DATA RACE\|panic" $OUT/demo.log; fi
 fi
 for prop in "$@"; do
